@@ -92,6 +92,7 @@ def run(ctx, cfg):
     x = [ctx.real('x%d' % i) for i in range(n)]
     boundary = ctx.integer('boundary')
     ctx.assume(boundary >= 0)
+    ctx.assume(boundary <= n + 1)      # larger values drop every extremum alike
     store = install_filter_stub(ctx, L)
     kwargs = {}
     if fk == 'n_cycles':
